@@ -71,9 +71,15 @@ func genC18(seed uint64, run int, tier string) Scenario {
 	}
 	prev := exec
 	var cmd string
+	// a slow dialogue: every answer after the first takes three fifths of the timeout, so that each
+	// stage is well inside its own timeout while the dialogue as a whole outlasts it
+	slowSteps := steps >= 2 && r.IntN(8) == 0
 	for i := 0; i < steps; i++ {
 		m := &peer.Mode{Name: fmt.Sprintf("s:%d", i), Prompt: pick(r, "", "? ", "[y/n]: ")}
 		rep := &peer.Reply{Out: text(), Next: m.Name}
+		if slowSteps && i > 0 && len(rep.Out) > 0 {
+			rep.Out[0].Delay = Micro(sc.TimeoutOpsUS * 3 / 5)
+		}
 		if i == 0 {
 			cmd = "zx " + word(r, digits, 1, 5) + "_0"
 			prev.Cmds[cmd] = rep
@@ -126,7 +132,7 @@ func genC18(seed uint64, run int, tier string) Scenario {
 		// callback that keeps its output the trigger still holds, and whether the error or a later
 		// callback comes next would depend on whether the next chunk arrives before the next poll
 		cb.NoReset = cb.Complete && r.IntN(3) == 0
-		if r.IntN(5) == 0 {
+		if r.IntN(5) == 0 && !slowSteps {
 			cb.NextTimeUS = sc.ReadDelayUS * int64(pick(r, 100, 300))
 		}
 		if !cb.Complete {
